@@ -5,7 +5,7 @@ From mathcomp Require Import polyorder.
 From Coq Require Import QArith List Permutation.
 Require Import MPSV.Roots.GaussZ MPSV.Roots.PolyZ MPSV.Roots.Cert MPSV.Roots.Transform MPSV.Roots.Bridge MPSV.Roots.TransformSound.
 Require Import MPSV.Match.MatchTheory MPSV.Match.MatchCheck MPSV.Match.MatchCheckProps MPSV.Match.Transform.
-Require Import MPSV.Match.SecularTheory MPSV.Match.MatchMult MPSV.Match.MatchWeak MPSV.Match.ConvertModel MPSV.Match.ConvertProps.
+Require Import MPSV.Match.TransformMu MPSV.Match.SecularTheory MPSV.Match.MatchMult MPSV.Match.MatchWeak MPSV.Match.ConvertModel MPSV.Match.ConvertProps.
 Import GRing.Theory Num.Theory.
 
 (* (1) Why a matching must exist whenever both runs satisfy C01 on an input with n simple roots:
@@ -233,6 +233,19 @@ Theorem C19_chebT_joukowski :
     ((chebT C n).[(z + z^-1) / 2%:R] = (z ^+ n + z ^- n) / 2%:R)%R.
 Proof. exact chebT_joukowski. Qed.
 Print Assumptions C19_chebT_joukowski.
+
+(* multiplicities (not only roots) are transported by coefficient scaling and variable rescaling, hence by
+   conv_scale / conv_rescale through the two bridge theorems above *)
+Theorem C19_mu_scale_coefficients :
+  forall (F : fieldType) (p : {poly F}) (c z : F), c != 0 -> \mu_z (c *: p) = \mu_z p.
+Proof. exact mu_scale_coefficients. Qed.
+Print Assumptions C19_mu_scale_coefficients.
+
+Theorem C19_mu_rescale_variable :
+  forall (F : fieldType) (p : {poly F}) (alpha z : F), alpha != 0 ->
+    \mu_z (p \Po (alpha *: 'X)) = \mu_(alpha * z) p.
+Proof. exact mu_rescale_variable. Qed.
+Print Assumptions C19_mu_rescale_variable.
 
 (* ======================================================================================== *)
 (* (7) Matching when roots may be multiple / discs of one family may share roots. *)
